@@ -85,6 +85,7 @@ Inductive opcode :=
 | OIadd                             (* arithmetic.int.iadd<6> *)
 | OGate (name : string)             (* a quantum gate: every qubit in comes out again, same ports *)
 | OCall (name : string) (nout : nat) (* call of a helper function of the X programs (see sem_call) *)
+| ODrop                             (* tket.guppy.drop: the auto-inserted drop of an affine value *)
 | OOther (name : string) (nout : nat). (* anything else: not interpreted *)
 
 Definition uidx (n : nat) (u : Z) : option nat :=
@@ -202,6 +203,12 @@ Definition sem_call (name : string) (args : list val) : outcome (list val) :=
     | [VArr [Some (VInt v)]] => Ok [VArr [Some (VInt (wrap_s (v + 1000)))]]
     | _ => Stuck "poke operands"
     end
+  else if String.eqb name "tag_of" then
+    (* tag_of(r: Reg) -> int, Reg = struct (data: array[int, 2], tag: int): result, then r handed back *)
+    match args with
+    | [VTuple [d; VInt t]] => Ok [VInt t; VTuple [d; VInt t]]
+    | _ => Stuck "tag_of operands"
+    end
   else Stuck name.
 
 Definition op_sem (op : opcode) (args : list val) : outcome (list val) :=
@@ -229,6 +236,7 @@ Definition op_sem (op : opcode) (args : list val) : outcome (list val) :=
   | OIadd => sem_iadd args
   | OGate _ => Ok args
   | OCall name _ => sem_call name args
+  | ODrop => match args with [_] => Ok [] | _ => Stuck "drop operands" end
   | OOther name _ => Stuck name
   end.
 
@@ -508,6 +516,7 @@ Definition op_tokens (op : opcode) : list string :=
   | OIadd => ["iadd"]
   | OGate g => ["gate"; g]
   | OCall f k => ["call"; f; nat_s k]
+  | ODrop => ["other"; "tket.guppy.drop"; "0"]
   | OOther s k => ["other"; s; nat_s k]
   end.
 Fixpoint instr_tokens (i : instr) : list string :=
